@@ -39,7 +39,7 @@ impl Default for SchedCfg {
             faults: vec![],
             p_reorder: 0.15,
             p_stick: 0.5,
-            t_live_ms: 600_000,
+            t_live_ms: 7 * 24 * 3600 * 1000,
             fault_actors: vec![],
             amb_classes: vec![],
             max_decisions: 200_000,
@@ -101,8 +101,9 @@ pub async fn drive<T: Send + 'static>(
                 break;
             }
             // parties are in a timer (back-off) or blocked on each other: let virtual time pass
-            tokio::time::sleep(Duration::from_millis(49)).await;
-            idle_ms += 50;
+            let step_ms: u64 = if idle_ms < 10_000 { 50 } else { 5_000 };
+            tokio::time::sleep(Duration::from_millis(step_ms - 1)).await;
+            idle_ms += step_ms;
             if idle_ms > cfg.t_live_ms {
                 out.stuck = true;
                 break;
